@@ -1565,3 +1565,116 @@ def reach_pruned(cfg, starts, removed=(), ignore_edges=()):
       if y not in removed and y not in seen and (x, y) not in ignore_edges:
         stack.append(y)
   return seen
+
+
+# ==========================================================================================
+# Private anchors by ROLE. The rules name the engine's private helpers (`_recompute_step`, ...). When
+# one of them was renamed, or a self-less one was moved to module level, the function playing the
+# role is looked up by what it does, and the parsed tree of this run is normalised so that it bears
+# the canonical name again (definition and call sites): every rule then works unchanged. Only the
+# in-memory index of this run is touched; nothing is executed or written.
+def _has_call(fnode, pred):
+  return any(isinstance(x, ast.Call) and pred(x) for x in ast.walk(fnode))
+
+
+def _attr_stores(fnode):
+  return {x.attr for x in ast.walk(fnode)
+          if isinstance(x, ast.Attribute) and isinstance(x.ctx, ast.Store)}
+
+
+def _attr_loads(fnode):
+  return {x.attr for x in ast.walk(fnode)
+          if isinstance(x, ast.Attribute) and isinstance(x.ctx, ast.Load)}
+
+
+def _calls_named(fnode, *names):
+  return _has_call(fnode, lambda c: (dotted(c.func) or "").split(".")[-1] in names or
+                   (isinstance(c.func, ast.Attribute) and c.func.attr in names))
+
+
+ROLE_FINDERS = {
+  # canonical name -> predicate over a FunctionDef of module `engine` (role, in one sentence)
+  "_make_sorted_work_items":     # builds the WorkItems of a sorted sequence of nodes
+    lambda f: _calls_named(f, "WorkItem") and _calls_named(f, "sorted", "sort") and
+    not _calls_named(f, "pop"),
+  "_update_loop":                # pops work items and re-orders on OrderError
+    lambda f: _calls_named(f, "pop") and _calls_named(f, "WorkItem") and
+    any(isinstance(x, ast.ExceptHandler) and x.type is not None and
+        (dotted(x.type) or "").endswith("OrderError") for x in ast.walk(f)),
+  "_recompute_step":             # scans chain(required, dirty) rows of one node
+    lambda f: _calls_named(f, "chain") and _calls_named(f, "OrderError"),
+  "_recompute_one_cell":         # runs the user code of one cell inside a bare except
+    lambda f: _calls_named(f, "method") and
+    any(isinstance(x, ast.ExceptHandler) and x.type is None for x in ast.walk(f)),
+  "_recompute":                  # dispatches a dirty read on _in_update_loop
+    lambda f: "_in_update_loop" in _attr_loads(f) and "_in_update_loop" not in _attr_stores(f)
+    and _calls_named(f, "WorkItem") and not _calls_named(f, "pop", "sorted", "sort"),
+  "_pre_update":                 # resets the per-frame state
+    lambda f: {"_locked_cells", "_recompute_done_map", "_changes_map"} <= _attr_stores(f)
+    and f.name != "__init__",
+  "_flush_changes":              # turns accumulated cell changes into summary changes
+    lambda f: _calls_named(f, "add_changes") and "_changes_map" in _attr_loads(f),
+  "_undo_to_checkpoint":         # replays the undo actions recorded since a checkpoint
+    lambda f: _calls_named(f, "ApplyUndoActions"),
+  "_get_undo_checkpoint":        # the lengths of the action lists
+    lambda f: any(isinstance(x, ast.Return) and isinstance(x.value, ast.Tuple) and
+                  len([e for e in x.value.elts if isinstance(e, ast.Call) and
+                       dotted(e.func) == "len"]) >= 3 for x in ast.walk(f)),
+  "_bring_all_up_to_date":       # the full recalculation: frame around an unrestricted loop
+    lambda f: "_unused_lookups" in _attr_loads(f) and _calls_named(f, "remove_node_if_unused"),
+}
+
+
+def canonicalise(repo):
+  """Give the engine's private role-bearing functions their canonical names back in this run's index
+  (see above). Idempotent."""
+  if getattr(repo, "_canon_A", False):
+    return
+  repo._canon_A = True
+  mod = repo.modules.get("engine")
+  eng = repo.classes.get("engine.Engine")
+  if mod is None or eng is None:
+    return
+  renames = {}          # actual name -> (canonical name, was module-level)
+  for canon, pred in ROLE_FINDERS.items():
+    if canon in eng.methods:
+      continue
+    cands = [fi for fi in list(eng.methods.values()) + list(mod.functions.values())
+             if not (fi.name in ROLE_FINDERS and fi.name in eng.methods) and pred(fi.node)]
+    if len(cands) != 1:
+      continue          # not found / ambiguous: the rules will say which anchor vanished
+    fi = cands[0]
+    renames[fi.name] = (canon, fi.cls is None, fi)
+  if not renames:
+    return
+  for actual, (canon, was_func, fi) in renames.items():
+    old_q = fi.qualname
+    new_q = "engine.Engine.%s" % canon
+    if was_func:
+      mod.functions.pop(actual, None)
+      fi.node.args.args.insert(0, ast.arg(arg="self"))
+      fi.cls = eng
+    else:
+      eng.methods.pop(actual, None)
+    fi.node.name = canon
+    fi.name = canon
+    eng.methods[canon] = fi
+    for q in [q for q in repo.funcs if q == old_q or q.startswith(old_q + ".")]:
+      f2 = repo.funcs.pop(q)
+      f2.qualname = new_q + q[len(old_q):]
+      if was_func:
+        f2.cls = eng
+      repo.funcs[f2.qualname] = f2
+  # call sites (module engine only: these helpers are private to it)
+  for x in ast.walk(mod.tree):
+    if isinstance(x, ast.Call):
+      f = x.func
+      if isinstance(f, ast.Attribute) and f.attr in renames and not renames[f.attr][1]:
+        f.attr = renames[f.attr][0]
+      elif isinstance(f, ast.Name) and f.id in renames and renames[f.id][1]:
+        x.func = ast.copy_location(
+          ast.Attribute(value=ast.copy_location(ast.Name(id="self", ctx=ast.Load()), f),
+                        attr=renames[f.id][0], ctx=ast.Load()), f)
+    elif isinstance(x, ast.Attribute) and isinstance(x.ctx, ast.Load) and x.attr in renames and \
+        not renames[x.attr][1]:
+      x.attr = renames[x.attr][0]       # bound method taken as a value
